@@ -50,6 +50,8 @@ MICROS = [0, 1, 999, 1000, 1001, 123000, 120000, 100000, 999999]
 MICROS2 = [10, 100, 1500, 10000, 99999, 100001, 500000, 999000, 999499, 999500, 999900, 123456, 120001, 900000]
 UNIT = {("second", "exact"): 1000000, ("millisecond", "exact"): 1000}
 FINDING_YEAR = "C15-year-below-1000-not-zero-padded"
+FINDING_FOLD = "C15-stixdatetime-drops-fold"
+FINDING_COPY = "C15-stixdatetime-copy-pickle-lose-precision"
 
 HEADER = """From Coq Require Import ZArith List String.
 From V Require Import Model.Timestamp.
@@ -108,6 +110,46 @@ def gen_offset(rng, subsecond=False):
     if r < 0.85:
         return rng.choice([19800, 20700, -34200, 45900, -12600, 50400, -50400, 86340, -86340]) * 1000000, rng.choice(["pytz", "std"])
     return rng.choice([3208, -3208, 1, -1, 86399, -86399, rng.randint(-86399, 86399)]) * 1000000, "std"
+
+
+ZONES = ["America/New_York", "Europe/London", "Australia/Lord_Howe", "Asia/Kolkata", "America/St_Johns", "Pacific/Auckland"]
+# wall times around the 2021 transitions of those zones (gaps, repeated hours) + ordinary summer/winter days
+ZONE_TIMES = {
+    "America/New_York": [[2021, 3, 14, 2, 30], [2021, 11, 7, 1, 30], [2021, 11, 7, 1, 0], [2021, 11, 7, 2, 0]],
+    "Europe/London": [[2021, 3, 28, 1, 30], [2021, 10, 31, 1, 30], [2021, 10, 31, 1, 59]],
+    "Australia/Lord_Howe": [[2021, 4, 4, 1, 45], [2021, 10, 3, 2, 15]],
+    "Asia/Kolkata": [[1941, 10, 1, 0, 30], [1945, 10, 14, 23, 30]],
+    "America/St_Johns": [[2021, 11, 7, 1, 30], [2021, 3, 14, 2, 30]],
+    "Pacific/Auckland": [[2021, 4, 4, 2, 30], [2021, 9, 26, 2, 30]],
+}
+VIAS = ["deepcopy", "copy", "pickle"]
+
+
+def zone_offsets(f, zone, fold):
+    """True UTC offset (microseconds) of the wall time f in the zone for the given fold, and the one for fold=0:
+    computed here with the standard library's zoneinfo, independently of the code under check."""
+    import zoneinfo
+    z = zoneinfo.ZoneInfo(zone)
+    us = dt.timedelta(microseconds=1)
+    o = dt.datetime(*f[:6], tzinfo=z, fold=fold).utcoffset() // us
+    o0 = dt.datetime(*f[:6], tzinfo=z, fold=0).utcoffset() // us
+    return o, o0
+
+
+def zone_input(rng):
+    zone = rng.choice(ZONES)
+    r = rng.random()
+    if r < 0.45:
+        y, m, d, hh, mm = rng.choice(ZONE_TIMES[zone])
+        f = [y, m, d, hh, mm, rng.choice([0, 59, rng.randint(0, 59)]), rng.choice(MICROS + MICROS2)]
+    else:
+        f = gen_fields(rng)
+        f[0] = rng.choice([1950, 1987, 2007, 2016, 2021, 2024, 2037, 2050]) if rng.random() < 0.8 else rng.randint(1900, 2100)
+        f[2] = min(f[2], 28)
+        f[1] = rng.choice([1, 7, f[1]])            # a winter and a summer month, so that one tzinfo object alternates
+    fold = 1 if rng.random() < 0.4 else 0
+    o, o0 = zone_offsets(f, zone, fold)
+    return {"dt": f, "off": o, "off0": o0, "tz": "zone", "zone": zone, "fold": fold}
 
 
 UDIGITS = [0x660, 0x6F0, 0x966, 0xFF10, 0x1D7CE, 0x1E950]
@@ -193,16 +235,24 @@ def gen_cases(run, scale):
         cases.append(d)
 
     def dt_input(cls=None, subsecond=False):
-        off, tz = gen_offset(rng, subsecond)
-        d = {"dt": gen_fields(rng), "off": off, "tz": tz}
+        if not subsecond and rng.random() < 0.1:
+            d = zone_input(rng)
+        else:
+            off, tz = gen_offset(rng, subsecond)
+            d = {"dt": gen_fields(rng), "off": off, "tz": tz}
         if cls:
             d["cls"] = cls
         return d
 
+    def maybe_via(kw, p=0.12):
+        if rng.random() < p:
+            kw["via"] = rng.choice(VIAS)
+        return kw
+
     for _ in range(int(2500 * scale)):     # format_datetime on STIXdatetime / datetime
         if rng.random() < 0.8:
             p, c = rng.choice(PC)
-            add("fmt", p, c, dt_input("stix"))
+            add("fmt", p, c, dt_input("stix"), **maybe_via({}))
         else:
             add("fmt", "any", "exact", dt_input())
     for _ in range(int(3000 * scale)):     # parse_into_datetime on datetimes and dates
@@ -218,17 +268,17 @@ def gen_cases(run, scale):
         if r < 0.1:
             add("prop", p, c, {"date": gen_fields(rng)[:3]})
         elif r < 0.75:
-            add("prop", p, c, dt_input())
+            add("prop", p, c, dt_input(), **maybe_via({}))
         else:
-            add("prop", p, c, {"str": gen_string(rng)[0]})
+            add("prop", p, c, {"str": gen_string(rng)[0]}, **maybe_via({}))
     for _ in range(int(1200 * scale)):     # timestamp properties of real objects
         route = rng.choice(sorted(ROUTES))
         p, c = ROUTES[route]
         r = rng.random()
         if r < 0.7:
-            add("obj", p, c, dt_input(), route=route)
+            add("obj", p, c, dt_input(), **maybe_via({"route": route}))
         else:
-            add("obj", p, c, {"str": gen_string(rng)[0]}, route=route)
+            add("obj", p, c, {"str": gen_string(rng)[0]}, **maybe_via({"route": route}))
     for _ in range(int(3000 * scale)):     # timestamp strings
         p, c = rng.choice(PC)
         s, cl = gen_string(rng)
@@ -251,6 +301,26 @@ def gen_cases(run, scale):
                         add("obj", tp, tc, inp, route=rng.choice(routes))
                     else:
                         add("prop", tp, tc, inp)
+    for _ in range(int(700 * scale)):      # aware values (fixed non-UTC offsets, DST zones) that are copied, deep-copied or pickled
+        p, c = rng.choice(PC)                # between cleaning and writing, or written as they are
+        inp = zone_input(rng) if rng.random() < 0.6 else dt_input()
+        if inp.get("off") in (None, 0):
+            inp["off"], inp["tz"] = rng.choice([19800, -18000, 3600, 45900, -34200]) * 1000000, "std"
+        if inp["dt"][6] % 1000 == 0 and rng.random() < 0.7:
+            inp["dt"][6] = rng.choice([120000, 1, 999, 123456, 999999, 100000])
+        k = rng.choice(["fmt", "prop", "prop", "obj", "parse"])
+        kw = {}
+        if k != "parse" and rng.random() < 0.75:
+            kw["via"] = rng.choice(VIAS)
+        if k == "obj":
+            routes = [rt for rt in sorted(ROUTES) if ROUTES[rt] == (p, c)]
+            if not routes:
+                k = "prop"
+            else:
+                kw["route"] = rng.choice(routes)
+        if k == "fmt":
+            inp["cls"] = "stix"
+        add(k, p, c, inp, **kw)
     for _ in range(int(150 * scale)):      # sub-second UTC offsets (legal in Python >= 3.7)
         p, c = rng.choice(PC)
         add(rng.choice(["parse", "prop"]), p, c, dt_input(subsecond=True))
@@ -289,6 +359,29 @@ def boundary_grid():
         for route in sorted(ROUTES):
             p, c = ROUTES[route]
             cases.append({"k": "obj", "p": p, "c": c, "route": route, "in": {"dt": [2017, 3, 4, 5, 6, 7, us], "off": None, "tz": "std"}})
+    # one tzinfo object with a variable offset used for winter and summer datetimes in both orders, repeated wall
+    # times with both folds; aware values copied / deep-copied / pickled between cleaning and writing
+    for zone in ZONES:
+        seq = []
+        for y, m, d, hh, mm in ZONE_TIMES[zone]:
+            for fold in (0, 1):
+                seq.append(([y, m, d, hh, mm, 0, 120000], fold))
+        for f, fold in [([2021, 1, 15, 12, 0, 0, 1], 0), ([2021, 7, 15, 12, 0, 0, 999], 0)] + seq + \
+                [([2021, 7, 16, 12, 0, 0, 1], 0), ([2021, 1, 16, 12, 0, 0, 999], 0)]:
+            o, o0 = zone_offsets(f, zone, fold)
+            inp = {"dt": f, "off": o, "off0": o0, "tz": "zone", "zone": zone, "fold": fold}
+            cases.append({"k": "fmt", "p": "any", "c": "exact", "in": inp})
+            cases.append({"k": "parse", "p": "millisecond", "c": "min", "in": inp})
+            cases.append({"k": "obj", "p": "millisecond", "c": "exact", "route": "v20.Identity.created", "in": inp})
+    for how in VIAS:
+        for p, c in PC:
+            for off in (0, 19800000000, -18000000000):
+                inp = {"dt": [2020, 1, 2, 12, 0, 0, 120000], "off": off, "tz": "std"}
+                cases.append({"k": "prop", "p": p, "c": c, "via": how, "in": inp})
+                cases.append({"k": "fmt", "p": p, "c": c, "via": how, "in": dict(inp, cls="stix")})
+                for route in sorted(ROUTES):
+                    if ROUTES[route] == (p, c):
+                        cases.append({"k": "obj", "p": p, "c": c, "via": how, "route": route, "in": inp})
     # a timestamp cleaned at one precision/constraint handed to a property of every other one
     for us in (1, 999, 1001, 123456, 999999):
         for sp, sc in PC:
@@ -323,13 +416,43 @@ def coq_input(inp, nm="NaiveKept"):
     return "(InDatetime %s %s)" % (coq_dt(inp["dt"]), coq_off(inp.get("off")))
 
 
-def model_term(case, ym, nm="NaiveKept"):
+class Variants:
+    """What the code under check does where several behaviours are compatible with the model (selected at run time)."""
+
+    def __init__(self, ym="Pad4", nm="NaiveUtc", fold="kept", lose=()):
+        self.ym, self.nm, self.fold, self.lose = ym, nm, fold, set(lose)
+
+    def describe(self):
+        return {"year_mode": self.ym, "naive_mode": self.nm, "fold": self.fold, "precision_lost_by": sorted(self.lose)}
+
+
+def loses(case, V):
+    how = case.get("via")
+    return bool(how) and how in V.lose and not (case["k"] == "obj" and how == "copy")      # copy.copy(obj) shares the values
+
+
+def effective_input(case, V):
+    """The input as the model sees it: for a zone, the UTC offset the code under check will use."""
+    inp = case["in"]
+    if inp.get("tz") == "zone" and V.fold == "dropped" and \
+            (case["k"] in ("parse", "prop", "obj") or "src" in inp or case.get("via") == "deepcopy"):
+        inp = dict(inp)
+        inp["off"] = inp["off0"]
+    return inp
+
+
+def model_term(case, V):
     p, c = COQ_P[case["p"]], COQ_C[case["c"]]
+    inp = effective_input(case, V)
+    lose = loses(case, V)
     if case["k"] == "fmt":
-        return "show_text (format_dt %s %s %s %s %s)" % (ym, p, c, coq_dt(case["in"]["dt"]), coq_off(case["in"].get("off")))
+        pc = "PAny CExact" if lose else "%s %s" % (p, c)
+        return "show_text (format_dt %s %s %s %s)" % (V.ym, pc, coq_dt(inp["dt"]), coq_off(inp.get("off")))
     if case["k"] == "parse":
-        return "show_parsed %s %s %s %s %s" % (nm, ym, p, c, coq_input(case["in"], nm))
-    return "show_text (write %s %s %s %s %s)" % (nm, ym, p, c, coq_input(case["in"], nm))
+        return "show_parsed %s %s %s %s %s" % (V.nm, V.ym, p, c, coq_input(inp, V.nm))
+    if lose:
+        return "show_text (write_as %s %s %s %s PAny CExact %s)" % (V.nm, V.ym, p, c, coq_input(inp, V.nm))
+    return "show_text (write %s %s %s %s %s)" % (V.nm, V.ym, p, c, coq_input(inp, V.nm))
 
 
 # --------------------------------------------------------------------------
@@ -350,8 +473,9 @@ def build_extracted():
     return os.path.join(EXTRACT_DIR, "c15model.exe")
 
 
-def extracted_line(case, ym, nm):
-    inp = case["in"]
+def extracted_line(case, V):
+    ym, nm = V.ym, V.nm
+    inp = effective_input(case, V)
     k = {"fmt": 0, "parse": 1}.get(case["k"], 2)
     src = "-" if "src" not in inp else XP[inp["src"][0]] + XC[inp["src"][1]]
     if "str" in inp:
@@ -360,12 +484,12 @@ def extracted_line(case, ym, nm):
         body = "date %d %d %d" % tuple(inp["date"])
     else:
         body = "dt %s %s" % (" ".join(str(x) for x in inp["dt"]), "N" if inp.get("off") is None else inp["off"])
-    return "%d %s %s %s %s %s %s" % (k, "K" if nm == "NaiveKept" else "U", "U" if ym == "Unpadded" else "P",
-                                     XP[case["p"]], XC[case["c"]], src, body)
+    return "%d %s %s %s %s %s %s %s" % (k, "K" if nm == "NaiveKept" else "U", "U" if ym == "Unpadded" else "P",
+                                        XP[case["p"]], XC[case["c"]], "L" if loses(case, V) else "-", src, body)
 
 
-def eval_extracted(exe, cases, ym, nm):
-    lines = [extracted_line(c, ym, nm) for c in cases]
+def eval_extracted(exe, cases, V):
+    lines = [extracted_line(c, V) for c in cases]
     n = max(1, common.NCPU)
     size = (len(lines) + n - 1) // n
     chunks = [lines[i:i + size] for i in range(0, len(lines), size)]
@@ -487,6 +611,13 @@ def oracle(cases, results, stats=None):
         subsec = off % 1000000 != 0
         year_class = (not strict and t_out is not None and re.match(r"^\d{1,3}-", text) is not None)
 
+        inp = case["in"]
+        # narrow classes of the two defects of STIXdatetime: a repeated wall time (fold=1) whose offset differs from the
+        # fold=0 one, on a route that rebuilds the value from a datetime; a value copied / pickled before it is written
+        fold_class = inp.get("tz") == "zone" and inp.get("fold") == 1 and inp.get("off") != inp.get("off0") and \
+            (case["k"] in ("parse", "prop", "obj") or "src" in inp or case.get("via") == "deepcopy")
+        copy_class = case.get("via") in ("copy", "pickle")
+
         def viol(what, finding=None):
             out.append(Violation("%s: %s" % (what, describe(case, text)), {"cases": [case], "check": what}, finding))
 
@@ -502,14 +633,20 @@ def oracle(cases, results, stats=None):
                 stats["subsecond_offset_cases"] = stats.get("subsecond_offset_cases", 0) + 1
                 stats["subsecond_offset_deviating"] = stats.get("subsecond_offset_deviating", 0) + int(t_out != want)
             elif t_out != want:
+                f = None
+                if fold_class and t_out == ((t_in + inp["off"] - inp["off0"]) // unit) * unit:
+                    f = FINDING_FOLD          # written with the offset of the first occurrence of the wall time
+                elif copy_class and t_out == t_in:
+                    f = FINDING_COPY          # written untruncated: the copy has forgotten its precision
                 viol("written instant is not the input instant truncated to the precision (written %s us, expected %s us)"
-                     % (t_out, want))
+                     % (t_out, want), f)
             if not digits_ok(p, c, frac, t_out % 1000000):
-                viol("wrong number of fractional digits for precision %s/%s" % (p, c))
-            if not subsec:
+                viol("wrong number of fractional digits for precision %s/%s" % (p, c), FINDING_COPY if copy_class else None)
+            if not subsec and not (fold_class and t_out != want):
                 groups.setdefault((p, c), []).append((t_in, t_out, case, text))
         if again != text:
-            viol("write-read-write is not a fixed point (second write gives %s)" % again, FINDING_YEAR if year_class else None)
+            viol("write-read-write is not a fixed point (second write gives %s)" % again,
+                 FINDING_YEAR if year_class else FINDING_COPY if (copy_class and strict) else None)
     for (p, c), g in groups.items():      # later instants are never written as earlier ones
         g.sort(key=lambda x: x[0])
         best = None
@@ -523,7 +660,8 @@ def oracle(cases, results, stats=None):
 
 
 def describe(case, text):
-    return "%s(%s, %s/%s) wrote %r" % (case["k"] + (":" + case["route"] if "route" in case else ""), case["in"], case["p"], case["c"], text)
+    return "%s(%s, %s/%s) wrote %r" % (case["k"] + (":" + case["route"] if "route" in case else "") +
+                                       ("+" + case["via"] if case.get("via") else ""), case["in"], case["p"], case["c"], text)
 
 
 # --------------------------------------------------------------------------
@@ -534,27 +672,46 @@ WITNESS = {"k": "fmt", "p": "any", "c": "exact", "in": {"dt": [999, 1, 2, 3, 4, 
 NAIVE_PROBE = {"k": "parse", "p": "any", "c": "exact", "in": {"dt": [2020, 1, 2, 3, 4, 5, 6], "off": None, "tz": "std"}}
 
 
+FOLD_PROBE = {"k": "parse", "p": "any", "c": "exact",
+              "in": {"dt": [2021, 11, 7, 1, 30, 0, 0], "off": -18000000000, "off0": -14400000000, "tz": "zone",
+                     "zone": "America/New_York", "fold": 1}}
+
+
+def copy_probe(how):
+    return {"k": "prop", "p": "millisecond", "c": "exact", "via": how,
+            "in": {"dt": [2020, 1, 2, 3, 4, 5, 120000], "off": 0, "tz": "utc"}}
+
+
 def select_variant(run):
-    """Run the witness of fmt_canonical_refuted on the implementation (year mode), and a naive datetime
-    through parse_into_datetime (kept naive, or localised to UTC: both satisfy the property)."""
-    res, res2 = common.run_impl("c15_impl", [WITNESS, NAIVE_PROBE], procs=1)
-    o, _ = split_result(res)
+    """Probes on the implementation: the witness of fmt_canonical_refuted (year mode); a naive datetime through
+    parse_into_datetime (kept naive / localised: both satisfy the property); a repeated wall time with fold=1
+    (fold kept / dropped when a STIXdatetime is built from a datetime); a cleaned value copied, deep-copied,
+    pickled before it is written (precision attributes kept / lost)."""
+    probes = [WITNESS, NAIVE_PROBE, FOLD_PROBE] + [copy_probe(h) for h in VIAS]
+    res = common.run_impl("c15_impl", probes, procs=1)
+    V = Variants()
+    o, _ = split_result(res[0])
     if o == "OK 999-01-02T03:04:05Z":
-        ym = "Unpadded"
-    elif o == "OK 0999-01-02T03:04:05Z":
-        ym = "Pad4"
-    else:
+        V.ym = "Unpadded"
+    elif o != "OK 0999-01-02T03:04:05Z":
         run.broken.append(Broken("correspondence", "year-mode witness matches neither variant", {"observed": o}))
-        ym = "Pad4"
-    parts = split_result(res2)[0].split(" ")
+    parts = split_result(res[1])[0].split(" ")
     if len(parts) >= 3 and parts[0] == "OK" and parts[2] == "naive":
-        nm = "NaiveKept"
-    elif len(parts) >= 3 and parts[0] == "OK" and parts[2] == "0":
-        nm = "NaiveUtc"
-    else:
-        run.broken.append(Broken("correspondence", "naive-datetime probe matches neither variant", {"observed": res2}))
-        nm = "NaiveUtc"
-    return ym, nm
+        V.nm = "NaiveKept"
+    elif not (len(parts) >= 3 and parts[0] == "OK" and parts[2] == "0"):
+        run.broken.append(Broken("correspondence", "naive-datetime probe matches neither variant", {"observed": res[1]}))
+    parts = split_result(res[2])[0].split(" ")
+    if len(parts) >= 3 and parts[0] == "OK" and parts[2] == "-14400000000":
+        V.fold = "dropped"
+    elif not (len(parts) >= 3 and parts[0] == "OK" and parts[2] == "-18000000000"):
+        run.broken.append(Broken("correspondence", "fold probe matches neither variant", {"observed": res[2]}))
+    for how, r in zip(VIAS, res[3:]):
+        o, _ = split_result(r)
+        if o == "OK 2020-01-02T03:04:05.12Z":
+            V.lose.add(how)
+        elif o != "OK 2020-01-02T03:04:05.120Z":
+            run.broken.append(Broken("correspondence", "%s probe matches neither variant" % how, {"observed": r}))
+    return V, probes, res
 
 
 def check(run):
@@ -574,10 +731,12 @@ def check(run):
         res = common.build_props("Props/C15.v")
         run.add_build(res, "make -C coq Props/C15.vo (coqc 8.16.1, full .vo) + Print Assumptions per theorem")
     phases["build"] = round(time.time() - t0, 1)
-    ym, nm = select_variant(run)
-    run.coverage["variant_selected"] = {"year_mode": ym, "naive_mode": nm}
+    V, probes, probe_res = select_variant(run)
+    ym, nm = V.ym, V.nm
+    run.coverage["variant_selected"] = V.describe()
     cases = gen_cases(run, scale)
-    impl = common.run_impl("c15_impl", cases)
+    procs_main = min(common.NCPU, max(1, len(cases) // 50))
+    impl = common.run_impl("c15_impl", cases, procs=procs_main)
     phases["impl"] = round(time.time() - t0, 1)
     hist = {}
     for c, r in zip(cases, impl):
@@ -606,11 +765,11 @@ def check(run):
             # volume through the extracted OCaml model; a sample of the same cases through the kernel so that
             # the two evaluation routes check each other
             exe = build_extracted()
-            xmodel = eval_extracted(exe, cases, ym, nm)
+            xmodel = eval_extracted(exe, cases, V)
             compare(xmodel, "extracted")
             step = max(1, len(cases) // 20000)
             sample = list(range(0, len(cases), step))
-            kmodel = common.coq_eval_lines("c15m", HEADER, [model_term(cases[i], ym, nm) for i in sample], shard=450)
+            kmodel = common.coq_eval_lines("c15m", HEADER, [model_term(cases[i], V) for i in sample], shard=450)
             compare(kmodel, "kernel", sample)
             rd = [(cases[i], k, xmodel[i]) for i, k in zip(sample, kmodel) if k != xmodel[i]]
             run.coverage["routes"] = {"extracted": len(xmodel), "kernel_sample": len(kmodel), "route_disagreements": len(rd)}
@@ -618,7 +777,7 @@ def check(run):
                 run.broken.append(Broken("correspondence", "kernel route vs extracted route",
                                          {"first": [{"case": c, "kernel": k, "extracted": x} for c, k, x in rd[:5]]}))
         else:
-            model = common.coq_eval_lines("c15m", HEADER, [model_term(c, ym, nm) for c in cases], shard=450)
+            model = common.coq_eval_lines("c15m", HEADER, [model_term(c, V) for c in cases], shard=450)
             compare(model, "kernel")
         run.coverage["correspondence_cases"] = len(cases)
         run.coverage.setdefault("correspondence_disagreements", 0)
@@ -628,11 +787,17 @@ def check(run):
     # the property itself on the implementation: the variant witness first (so that it is the replay when the
     # unpadded variant is back), then the deterministic boundary grid and every generated case
     stats = {}
-    grid = [WITNESS] + boundary_grid()
+    grid = probes + boundary_grid()
     grid_impl = common.run_impl("c15_impl", grid, procs=4)
     for c in grid:
         run.count(c, nontrivial=True)
-    run.violations += oracle(grid + cases, grid_impl + impl, stats)
+    vg = oracle(grid, grid_impl, stats)
+    vc = oracle(cases, impl, stats)
+    for v in vg:
+        v.batch = (grid, 4)
+    for v in vc:
+        v.batch = (cases, procs_main)
+    run.violations += vg + vc
     run.coverage["oracle_cases"] = len(cases) + len(grid)
     if run.broken and not run.violations:
         # something no longer checks but no generated input fails the property: search at higher volume
@@ -643,7 +808,7 @@ def check(run):
         run.coverage["search_cases"] = len(extra)
     run.coverage["out_of_domain"] = stats
     run.coverage["failing_cases_found"] = len(run.violations)
-    run.violations[:] = first_per_kind(run.violations)
+    run.violations[:] = [reproducible(v) for v in first_per_kind(run.violations)]
     run.coverage["trusted_base"] += [
         "coq/Model/Timestamp.v, coq/Model/Calendar.v: hand-written model of stix2/utils.py timestamp code and of CPython datetime/strptime/strftime (correspondence-checked each run)",
         "coq/Spec/TimestampSpec.v: strict reader of YYYY-MM-DDTHH:MM:SS[.d+]Z (the specification the model is proved against)",
@@ -657,6 +822,41 @@ def check(run):
         "the code on them) but are outside the oracle; counts under coverage.out_of_domain",
         "strings the parser rejects (e.g. 7+ fractional digits) are outside 'accepted timestamp strings' (acceptance is C03's concern)",
     ]
+
+
+def reproducible(v):
+    """A replay is run in a fresh interpreter.  If the failure does not show there on its own (it depended on what
+    the same worker process had handled before, e.g. a tzinfo object seen earlier), the replay gets the cases that
+    preceded it in that process: first only those sharing its time zone, else all of them."""
+    batch = getattr(v, "batch", None)
+    kind = str(v.replay.get("check")).split(" (")[0].split(": ")[0]
+
+    def shows(cs):
+        try:
+            res = common.run_impl("c15_impl", cs, procs=1)
+        except RuntimeError:
+            return False
+        return any(str(x.replay.get("check")).split(" (")[0].split(": ")[0] == kind for x in oracle(cs, res))
+
+    cs = v.replay["cases"]
+    if shows(cs) or batch is None:
+        return v
+    allc, procs = batch
+    try:
+        idx = max(next(i for i, c in enumerate(allc) if c is x) for x in cs)
+    except StopIteration:
+        return v
+    before = [allc[j] for j in range(idx % procs, idx, procs)]
+    zones = {c["in"].get("zone") for c in cs if c["in"].get("zone")}
+    for pre in ([c for c in before if c["in"].get("zone") in zones] if zones else None, before):
+        if pre is None:
+            continue
+        cand = pre + [c for c in cs if not any(c is b for b in pre)]
+        if shows(cand):
+            v.replay["cases"] = cand
+            v.replay["note"] = "order-dependent: the first %d cases prepare the interpreter state" % len(pre)
+            return v
+    return v
 
 
 def first_per_kind(violations):
